@@ -175,15 +175,15 @@ private theorem clean_render (v : XR) (m : Tok) (hv : valOK v) (hm : isMissTok m
   | ninf => rfl
   | nan => exact (isMissTok_iff m).1 hm
 
-/-- a metadata cell reads as its value; a missing-value token reads as the default 0 -/
+/-- a metadata cell reads as its value; a missing-value token reads as missing (NaN) -/
 private theorem clean_meta (o : Option Rat) (m : Tok) (ho : metaOK o) (hm : isMissTok m) :
-    nz (cleanTok (metaTok o m)) = metaVal o := by
+    cleanTok (metaTok o m) = metaVal o := by
   cases o with
   | none =>
     have : cleanTok m = .nan := (isMissTok_iff m).1 hm
-    simp [metaTok, metaVal, this, nz, XR.isNan]
+    simp [metaTok, metaVal, this]
   | some q =>
-    simp [metaTok, metaVal, clean_num q ho, nz, XR.isNan]
+    simp [metaTok, metaVal, clean_num q ho]
 
 /-! ### one rendered data row -/
 
@@ -223,10 +223,10 @@ private theorem rowTime_render :
       simp [dateToUnix, Rat.num_natCast, Rat.den_natCast, this, hu]
     by_cases hh : Col.hour ∈ L.cols
     · rw [if_pos hh] at hrest
-      simp [hd, hh, cellTok, clean_num _ hne, hdu, clean_num _ hrest.2]
+      simp [hd, hh, cellTok, clean_num _ hne, hdu, clean_num _ hrest.2, XR.isNan]
       rw [← hrest.1]; rfl
     · rw [if_neg hh] at hrest
-      simp [hd, hh, cellTok, clean_num _ hne, hdu]
+      simp [hd, hh, cellTok, clean_num _ hne, hdu, XR.isNan]
       rw [← hrest]
   · rw [if_neg hd] at ht
     by_cases hu : Col.unixtime ∈ L.cols
@@ -268,7 +268,7 @@ private theorem rowId_render :
     · simp [h1, h2]
 
 private theorem rowLat_render :
-    nz (rowMeta (getCol (headerLine L) (dataLine T L r)) sLat) =
+    (rowMeta (getCol (headerLine L) (dataLine T L r)) sLat) =
       if Col.lat ∈ L.cols then metaVal (T.station r.1.loc).lat else .fin 0 := by
   have e1 : sLat = colKey Col.lat := by decide
   have ht := (h.meta_ok r hr).1
@@ -277,10 +277,10 @@ private theorem rowLat_render :
   simp only [aliasOf]
   by_cases h1 : Col.lat ∈ L.cols
   · simp [h1, cellTok, clean_meta _ _ ht (h.missMeta_ok _ _)]
-  · simp [h1, nz, XR.isNan]
+  · simp [h1]
 
 private theorem rowLon_render :
-    nz (rowMeta (getCol (headerLine L) (dataLine T L r)) sLon) =
+    (rowMeta (getCol (headerLine L) (dataLine T L r)) sLon) =
       if Col.lon ∈ L.cols then metaVal (T.station r.1.loc).lon else .fin 0 := by
   have e1 : sLon = colKey Col.lon := by decide
   have ht := (h.meta_ok r hr).2.1
@@ -289,10 +289,10 @@ private theorem rowLon_render :
   simp only [aliasOf]
   by_cases h1 : Col.lon ∈ L.cols
   · simp [h1, cellTok, clean_meta _ _ ht (h.missMeta_ok _ _)]
-  · simp [h1, nz, XR.isNan]
+  · simp [h1]
 
 private theorem rowElev_render :
-    nz (rowElev (getCol (headerLine L) (dataLine T L r))) =
+    (rowElev (getCol (headerLine L) (dataLine T L r))) =
       if Col.altitude ∈ L.cols ∨ Col.elev ∈ L.cols then metaVal (T.station r.1.loc).elev
       else .fin 0 := by
   have e1 : sAltitude = colKey Col.altitude := by decide
@@ -305,7 +305,7 @@ private theorem rowElev_render :
   · simp [h1, cellTok, clean_meta _ _ ht (h.missMeta_ok _ _)]
   · by_cases h2 : Col.elev ∈ L.cols
     · simp [h1, h2, cellTok, clean_meta _ _ ht (h.missMeta_ok _ _)]
-    · simp [h1, h2, nz, XR.isNan]
+    · simp [h1, h2]
 
 end Row
 
@@ -1121,34 +1121,13 @@ private theorem hasId_render :
     · exact ⟨_, hc, Or.inr rfl⟩
 
 private theorem ids_render :
-    assignIds (assemble (headerLine L) (prows T L) (metaOfTable T)).locs =
+    assignIds (assemble (headerLine L) (prows T L) (metaOfTable T)).hasId
+        (assemble (headerLine L) (prows T L) (metaOfTable T)).locs =
       if hasIdCol L then (assemble (headerLine L) (prows T L) (metaOfTable T)).locs.map (·.id)
       else (List.range (assemble (headerLine L) (prows T L) (metaOfTable T)).locs.length).map
         (fun (i : Nat) => XR.fin (i : Rat)) := by
-  obtain ⟨_, _, _, _, _, i6, _⟩ := assemble_spec (headerLine L) (prows T L) (metaOfTable T)
-    (prows_consistent h) (prows_fin h)
-  have hid : ∀ l ∈ (assemble (headerLine L) (prows T L) (metaOfTable T)).locs,
-      l.id = if hasIdCol L then l.id else .nan := by
-    intro l hl
-    obtain ⟨p, hp, rfl⟩ := (i6 l).1 hl
-    obtain ⟨r, hr, rfl⟩ := List.mem_map.1 hp
-    have f := rowOf_render h r ((mem_order h r).1 hr)
-    rw [f.2.2.2.1]
-    by_cases hi : hasIdCol L = true <;> simp [locOf, hi]
-  by_cases hi : hasIdCol L = true
-  · rw [if_pos hi]
-    apply assignIds_ids
-    intro l hl
-    obtain ⟨p, hp, rfl⟩ := (i6 l).1 hl
-    obtain ⟨r, hr, rfl⟩ := List.mem_map.1 hp
-    have f := rowOf_render h r ((mem_order h r).1 hr)
-    rw [f.2.2.2.1]
-    simp [locOf, hi, XR.isNan]
-  · rw [if_neg hi]
-    apply assignIds_nan
-    intro l hl
-    have := hid l hl
-    rwa [if_neg hi] at this
+  unfold assignIds
+  rw [hasId_render h]
 
 end Main
 
@@ -1163,12 +1142,13 @@ structure Faithful (T : Table) (L : Layout) (P : Parsed) : Prop where
   leads_asc : Asc P.leads
   leads_mem : ∀ x, x ∈ P.leads ↔ ∃ r ∈ T.rows, x = .fin r.1.lead
   /-- one location per station of the table, carrying that station's metadata (`locOf`: a
-  coordinate the station does not know — a missing-value token on its rows — reads 0, like an absent
-  column, whatever the rows before it say) -/
+  coordinate the station does not know — a missing-value token on its rows — reads NaN, as the same
+  entry of a NetCDF file does (`C10_same_dataset`: `datasetOf` maps a missing entry to NaN); 0 is the
+  default of a file WITHOUT that column) -/
   locs_nodup : P.locs.Nodup
   locs_mem : ∀ l, l ∈ P.locs ↔ ∃ r ∈ T.rows, l = locOf T L r.1.loc
   /-- ids: those of the file, or 0,1,2,… when the file has no id column -/
-  ids : assignIds P.locs = if hasIdCol L then P.locs.map (·.id)
+  ids : assignIds P.hasId P.locs = if hasIdCol L then P.locs.map (·.id)
           else (List.range P.locs.length).map (fun (i : Nat) => XR.fin (i : Rat))
   /-- every value is stored at its own (time, lead time, location) coordinate; combinations
   absent from the file are missing (`Table.value` is nan when the table has no such row) -/
@@ -1419,6 +1399,49 @@ theorem C04_textclean (t : Tok) :
 inf, -999, above 1e30), are exactly the tokens `_clean` maps to NaN — see `isMissTok_iff` above. -/
 theorem C09_missing_tokens (t : Tok) : cleanTok t = .nan ↔ isMissTok t := (isMissTok_iff t).symm
 
+/-! ## Missing coordinate tokens (the repaired findings text-missing-lat/lon/elev-zero, -id-invented,
+-date-crash): a missing-value token in a coordinate column is a missing coordinate, NaN — what the same entry
+of a NetCDF file reads (`C10_same_dataset`, `C10_missing_coordinate`) — and the defaults are for ABSENT
+columns only.  `Spec.Table` cannot hold a case without time or id (`Case.time`, `Case.loc : Rat`), so for
+those two the statements are about the reader model directly, for every row / every location list. -/
+
+/-- With a location / id column the ids are those of the file, for ALL location lists — in particular a
+location whose id token is missing keeps id NaN; no id is invented.  Without such a column: 0, 1, 2, … -/
+theorem C09_missing_id_kept (locs : List Loc) :
+    assignIds true locs = locs.map (·.id) ∧
+    assignIds false locs = (List.range locs.length).map (fun (i : Nat) => XR.fin (i : Rat)) := by
+  constructor <;> simp [assignIds]
+
+/-- A row whose `date` token is a missing-value token has a missing time (NaN), whatever the hour column
+says — no exception; likewise a missing `unixtime` token. -/
+theorem C09_missing_date_nan (col : List Char → Option Tok) (tk : Tok) (hm : isMissTok tk) :
+    (col sDate = some tk → rowTime col = some .nan) ∧
+    (col sDate = none → col sUnixtime = some tk → rowTime col = some .nan) := by
+  have hc : cleanTok tk = .nan := (isMissTok_iff tk).1 hm
+  constructor
+  · intro hd
+    simp [rowTime, hd, hc, XR.isNan]
+  · intro hd hu
+    simp [rowTime, hd, hu, hc]
+
+/-- lat / lon / altitude / elev of a row: a missing-value token reads NaN; the default 0 only when the
+column is absent. -/
+theorem C09_missing_meta_nan (col : List Char → Option Tok) (key : List Char) (tk : Tok)
+    (hm : isMissTok tk) :
+    (col key = some tk → rowMeta col key = .nan) ∧ (col key = none → rowMeta col key = .fin 0) ∧
+    (col sAltitude = some tk → rowElev col = .nan) ∧
+    (col sAltitude = none → col sElev = some tk → rowElev col = .nan) ∧
+    (col sAltitude = none → col sElev = none → rowElev col = .fin 0) := by
+  have hc : cleanTok tk = .nan := (isMissTok_iff tk).1 hm
+  refine ⟨?_, ?_, ?_, ?_, ?_⟩ <;> intros <;> simp_all [rowMeta, rowElev]
+
+/-- non-vacuity: `NA` is a missing-value token; a location list with a NaN id keeps it -/
+example : isMissTok (.bad "NA") ∧
+    assignIds true [⟨.fin 7, .fin 60, .fin 10, .fin 5⟩, ⟨.nan, .fin 59, .fin 11, .nan⟩] = [.fin 7, .nan] := by
+  constructor
+  · simp [isMissTok]
+  · simp [assignIds]
+
 /-! ## Non-vacuity: a concrete 2 × 2 × 2 table, two different layouts -/
 
 def row (a b : Rat) : Row := fun f =>
@@ -1592,16 +1615,16 @@ theorem wfb : WF T0 Lb where
   x1_written := fun hu => by simp [T0] at hu
 
 /-- the model really computes the table from the first file (location 41, whose altitude cells
-are `NA`, has elevation 0 — not the 12 of location 3 on the rows before it) … -/
+are `NA`, has a missing elevation: NaN — not 0, and not the 12 of location 3 on the rows before it) … -/
 def checkA : Bool :=
   match parse (render T0 La) with
   | .ok P =>
     decide (P.times = [.fin 1325376000, .fin 1325419200]) && decide (P.leads = [.fin 0, .fin 6]) &&
-    decide (P.locs = [⟨.fin 3, .fin 50, .fin 10, .fin 12⟩, ⟨.fin 41, .fin 42, .fin 23, .fin 0⟩]) &&
+    decide (P.locs = [⟨.fin 3, .fin 50, .fin 10, .fin 12⟩, ⟨.fin 41, .fin 42, .fin 23, .nan⟩]) &&
     decide (P.arr P.locs .obs = [.fin 1, .fin 5, .fin 3, .nan, .fin 9, .nan, .fin 11, .fin 15]) &&
     decide (P.arr4 P.locs .thr P.thresholds =
       [.fin (1/2), .fin (1/2), .fin (1/2), .nan, .fin (1/2), .nan, .fin (1/2), .fin (1/2)]) &&
-    decide (P.thresholds = [.fin 5]) && decide (assignIds P.locs = [.fin 3, .fin 41]) &&
+    decide (P.thresholds = [.fin 5]) && decide (assignIds P.hasId P.locs = [.fin 3, .fin 41]) &&
     decide (P.var = ⟨some ["Weird".toList, "variable".toList], none, some (.fin 0), none⟩)
   | .error _ => false
 
@@ -1612,7 +1635,7 @@ def checkB : Bool :=
   match parse (render T0 Lb) with
   | .ok P =>
     decide (P.times = [.fin 1325376000, .fin 1325419200]) && decide (P.leads = [.fin 0, .fin 6]) &&
-    decide (P.locs = [⟨.fin 41, .fin 42, .fin 23, .fin 0⟩, ⟨.fin 3, .fin 50, .fin 10, .fin 12⟩]) &&
+    decide (P.locs = [⟨.fin 41, .fin 42, .fin 23, .nan⟩, ⟨.fin 3, .fin 50, .fin 10, .fin 12⟩]) &&
     decide (P.arr P.locs .obs = [.fin 5, .fin 1, .nan, .fin 3, .nan, .fin 9, .fin 15, .fin 11]) &&
     decide (P.thresholds = [.fin 5]) &&
     decide (P.var = ⟨some ["Weird".toList, "variable".toList], none, some (.fin 0), none⟩)
